@@ -950,6 +950,15 @@ func (t *State) verifyDAGTxs(blockHeight int64, txs []*pb.Transaction, isRootTx 
 			return errors.New("verifyTx error, tx is nil")
 		}
 		txid := string(tx.GetTxid())
+		if unconfirmToConfirm[txid] {
+			// verified when it was admitted to the pool: only make sure that the block carries THAT
+			// transaction and not another body under its id (the ledger stores what the block carries)
+			realTxid, idErr := txhash.MakeTransactionID(tx)
+			if idErr != nil || !bytes.Equal(realTxid, tx.Txid) {
+				t.log.Warn("block carries a pending tx with another body", "txid", fmt.Sprintf("%x", tx.Txid))
+				return errors.New("txid of a pending tx in the block does not match its content")
+			}
+		}
 		if unconfirmToConfirm[txid] == false {
 			if t.verifyAutogenTxValid(tx) {
 				// 校验auto tx
